@@ -39,8 +39,9 @@ P = {
             "edit/iterate histories for the cache clause with pull-counting sources",
             "hypothesis configurations (differential) + generated edit/iterate histories (model-based)", "4/C11"),
     "C12": ("row/field transforms vs cell-by-cell reference implementations written from the docstrings, on ragged tables, "
-            "duplicate names, name/index/mixed field specs",
-            "hypothesis inputs x argument forms vs reference implementations", "4/C12"),
+            "duplicate names, name/index/mixed field specs; a second function applied to the output view of a first vs the two "
+            "references composed",
+            "hypothesis inputs x argument forms vs reference implementations (also composed pairwise)", "4/C12"),
     "C13": ("selectors vs reference filters under the independent ordering; select/complement partition; slices vs islice",
             "hypothesis tables x reference values vs reference filter + partition law", "4/C13"),
     "C14": ("reshape round trips (melt/recast, transpose, flatten/unflatten, dicts/columns) and reference expansions "
@@ -65,17 +66,25 @@ P = {
             "exhaustive enumeration of (operator, empty-input subset, header shape) vs reference", "4/C20"),
 }
 
-# shared sub-checks registered per operator family (pv/reuse.py, pv/names.py, pv/fluent.py)
+# shared sub-checks registered per operator family (pv/reuse.py, pv/names.py, pv/fluent.py, pv/upstream.py) and pv/scale.py
 SHARED = {
     "reuse": ("; second use of one view object (iterate, edit the source lists incl. the column layout, iterate again) vs a freshly "
               "built view", "; differential old-view vs fresh-view histories"),
     "names": ("; field names that are objects (not str) of the same text vs the str-named table", "; metamorphic field-name relation"),
     "fluent": ("; every Table method of the family is the module-level function object (exhaustive)", "; exhaustive method-identity check"),
+    "upstream": ("; inputs handed in through neutral petl views and results consumed through len/header/look/in/getitem/copy/pickle "
+                 "before iterating vs the result on plain lists", "; metamorphic neutral-view / consumer-protocol relation"),
+    "scale": ("; a share of the generated cases blown up after generation (rows repeated or one row repeated N times first, up to "
+              "2600 rows / 130 extra fields / deep nesting / long cells), same oracle on the blown-up input",
+              "; deterministic at-scale blow-up of generated cases"),
 }
 HAS = {
     "reuse": ["C04", "C05", "C06", "C07", "C08", "C09", "C10", "C12", "C13", "C14", "C16"],
     "names": ["C05", "C06", "C07", "C08", "C09", "C10", "C12", "C13", "C14", "C16"],
     "fluent": ["C02", "C04", "C05", "C06", "C07", "C08", "C09", "C10", "C12", "C13", "C14", "C15", "C16", "C17"],
+    "upstream": ["C05", "C06", "C07", "C08", "C09", "C10", "C12", "C13", "C14", "C16"],
+    "scale": ["C01", "C02", "C03", "C04", "C05", "C06", "C07", "C08", "C09", "C10", "C11", "C12", "C13", "C14", "C15", "C16", "C17", "C18",
+              "C19", "C20"],
 }
 for _k, (_t, _q) in SHARED.items():
     for _pid in HAS[_k]:
